@@ -2,8 +2,10 @@
 
 Modular over C14: Chipset.command() returns the payload of a valid response or
 raises IOError / Chipset.Error with an arbitrary status (its raises-clause is
-proved in C14); assumed here in addition: a valid response carries the payload
-length its command defines (register reads return one octet per register)."""
+proved in C14). The payload of a well-framed response may be EMPTY (no status
+octet) since session 4 - nothing in the frame format forbids it, and assuming
+"at least one octet" hid the IndexError repaired by the fix of session 4;
+still assumed: register reads return one octet per requested register."""
 from .common import *   # noqa
 
 X = 'nfc.clf.pn53x:'
@@ -13,7 +15,7 @@ DOC = {'nfc.clf:TimeoutError': [], 'nfc.clf:TransmissionError': [], 'nfc.clf:Bro
 
 contract('nfc.clf.pn53x:Chipset.command', 'C13', dict(self=Any(), cmd_code=Any(), cmd_data=Any(), timeout=Any()),
          name='C13/pn53x.command', assumed=True, note='raises-clause proved as C14/pn53x.command',
-         raises={'IOError': [], CE: ['exc.errno >= 1 and exc.errno <= 255']}, returns=Bytes(1, 264, mutable=True))
+         raises={'IOError': [], CE: ['exc.errno >= 1 and exc.errno <= 255']}, returns=Bytes(0, 264, mutable=True))
 contract('nfc.clf.pn532:Chipset._read_register', 'C13', dict(self=Any(), data=Any()),
          name='C13/pn532._read_register', assumed=True,
          note='a valid ReadRegister response holds one octet per requested register',
@@ -112,12 +114,15 @@ contract('nfc.clf:ContactlessFrontend.exchange', 'C13',
 contract('nfc.clf.pn53x:Chipset.command', 'C13', dict(self=Any(), cmd_code=Any(), cmd_data=Any(), timeout=Any()),
          name='C13/pn53x.command.answered', assumed=True,
          note='the case of C13/pn53x.command in which the chip answers with a payload (or the host link fails)',
-         raises={'IOError': []}, returns=Bytes(1, 264, mutable=True))
+         raises={'IOError': []}, returns=Bytes(0, 264, mutable=True))
 contract(X + 'Chipset.in_data_exchange', 'C13',
          dict(self=CHIP(), data=Bytes(0, 262, mutable=True), timeout=Const(0.1), more=Bool()),
          name='C13/pn53x.in_data_exchange', use=['C13/pn53x.command.answered'],
-         ensures=[('O-status.ok', 'call_ret("C13/pn53x.command.answered")[0] % 64 == 0')],
-         raises={'IOError': [], CE: ['exc.errno == call_ret("C13/pn53x.command.answered")[0] % 64',
+         ensures=[('O-status.ok', 'len(call_ret("C13/pn53x.command.answered")) >= 1 and '
+                                  'call_ret("C13/pn53x.command.answered")[0] % 64 == 0')],
+         raises={'IOError': [], CE: ['(len(call_ret("C13/pn53x.command.answered")) == 0 and exc.errno == 255) or '
+                                     '(len(call_ret("C13/pn53x.command.answered")) >= 1 and '
+                                     'exc.errno == call_ret("C13/pn53x.command.answered")[0] % 64)',
                                      'exc.errno != 0']})
 
 # ---------------------------------------------------------------- RC-S380 host frames (verified, not assumed)
@@ -141,8 +146,8 @@ contract(R + 'Chipset.send_command', 'C13',
 contract(X + 'Chipset.in_data_exchange', 'C13', dict(self=Any(), data=Any(), timeout=Any(), more=Any()),
          name='C13/pn53x.in_data_exchange.summary', assumed=True,
          note='summary of C13/pn53x.in_data_exchange (proved above): response data and the more flag, IOError or '
-              'Chipset.Error with a non-zero 6-bit error code',
-         raises={'IOError': [], CE: ['exc.errno >= 1 and exc.errno <= 63']},
+              'Chipset.Error with a non-zero 6-bit error code (FFh when the response has no status octet)',
+         raises={'IOError': [], CE: ['(exc.errno >= 1 and exc.errno <= 63) or exc.errno == 255']},
          returns='(nondet_bytearray(0, 262), nondet_bool())')
 for mod, what in (('nfc.clf.rcs956:', 'rcs956'), ('nfc.clf.pn533:', 'pn533')):
     contract(mod + 'Device._tt1_send_cmd_recv_rsp', 'C13',
